@@ -107,7 +107,7 @@ def gen_cases(ck, limit):
                 add(sg.with_polls(m, (1 << len(m)) - 1), [fcid], [1 - fcid], "one_fault_all_interleavings",
                     {"fault": fault, "place": place})
     # (b) random: one or two faulty clients among 1..3 healthy ones, streams allowed, random polls
-    for i in range(1400 if quick else 8000):
+    for i in range(1000 if quick else 8000):
         nh = rng.randrange(1, 4)
         nf = rng.choice([1, 1, 2])
         ids = list(range(nh + nf))
@@ -127,6 +127,67 @@ def gen_cases(ck, limit):
         m = sg.random_merge(rng, seqs)
         mask = rng.choice([(1 << len(m)) - 1, 0, rng.getrandbits(len(m)), rng.getrandbits(len(m))])
         add(sg.with_polls(m, mask), fids, hids, "random_%d_faults" % nf, {"faults": faults})
+    # (d) the faulty client is in reply-stream mode: it makes a `more` call (the service answers Multi), some
+    #     items go through, then its write fails at item k (every k) -- with 0..3 healthy plain clients (also a
+    #     healthy streaming one, so that the failing stream is not at index 0), and with NO other connection,
+    #     in which case a client that connects afterwards must still be served
+    for n_items in (1, 2, 3, 4):
+        for k in range(0, n_items):
+            for nh in (0, 1, 2, 3):
+                for variant in range(2 if quick else 6):
+                    tags = sg.Tags()
+                    ids = list(range(nh + 1))
+                    rng.shuffle(ids)
+                    f, hids = ids[0], ids[1:]
+                    pre = rng.randrange(0, 2)
+                    frames = [sg.call("Echo", f, tags.next(), v=1) for _ in range(pre)]
+                    frames.append(sg.call("Sub", f, tags.next(), more=True))
+                    frames += [sg.call("Echo", f, tags.next(), v=2) for _ in range(rng.randrange(0, 2))]
+                    fseq = [["n", f], ["fw", f, pre + k], ["a", f, sg.wire(frames).hex()]]
+                    fsev = [["si", f, 100 + j, 1] for j in range(n_items)] + [["se", f]]
+                    seqs, hsevs = [], []
+                    for h in hids:
+                        if variant % 2 == 1 and h == hids[0]:
+                            hs, hv = healthy_seq(rng, tags, h, True)
+                            hs.insert(1, ["a", h, sg.wire([sg.call("Sub", h, tags.next(), more=True)]).hex()])
+                            hv = [["si", h, 7, 1], ["si", h, 8, 1]] + hv + [["se", h]]
+                        else:
+                            hs, hv = healthy_seq(rng, tags, h, False)
+                        seqs.append(hs)
+                        if hv:
+                            hsevs.append(hv)
+                    late = nh + 1
+                    healthy = list(hids)
+                    if variant % 2 == 0:
+                        # everybody connected and the faulty stream open before the items arrive
+                        m = [x for sq in ([fseq] + seqs) for x in sq[:1]] + fseq[1:] + \
+                            sg.random_merge(rng, [sq[1:] for sq in seqs] + hsevs + [fsev])
+                    else:
+                        m = sg.random_merge(rng, [fseq, fsev] + seqs + hsevs)
+                    if nh == 0 or rng.random() < 0.3:
+                        m += [["p"], ["n", late], ["a", late, sg.wire([sg.call("Count", late, tags.next()),
+                                                                       sg.call("Echo", late, tags.next(), v=3)]).hex()]]
+                        healthy.append(late)
+                    mask = (1 << len(m)) - 1 if variant < 2 else rng.getrandbits(len(m))
+                    add(sg.with_polls(m, mask), [f], healthy, "stream_write_failure",
+                        {"fault": "stream_write_error", "items": n_items, "fail_at_item": k, "healthy": nh})
+    # (e) a fault on A and a call on B become available between the same two polls of the server, with
+    #     both round-robin orders (the previous winner is A resp. B); every fault kind
+    for fault in FAULTS:
+        if fault == "oversize" and quick:
+            continue
+        for last in (0, 1):
+            for fcid in (0, 1):
+                tags = sg.Tags()
+                hcid = 1 - fcid
+                warm = [["n", 0], ["n", 1], ["p"],
+                        ["a", last, sg.wire([sg.call("Echo", last, tags.next(), v=9)]).hex()], ["p"]]
+                fseq = faulty_seq(rng, tags, fcid, fault, 1 if fault == "write_error" else 0, limit)[1:]
+                hseq = [["a", hcid, sg.wire([sg.call("Count", hcid, tags.next()),
+                                             sg.call("Echo", hcid, tags.next(), v=5)]).hex()]]
+                body = (fseq + hseq) if rng.random() < 0.5 else (hseq + fseq)
+                add(warm + body + [["p"], ["p"]], [fcid], [hcid], "fault_and_call_same_poll",
+                    {"fault": fault, "last_winner": last, "faulty": fcid})
     # (c) the listener fails at some moment (the only legitimate end of the loop): model correspondence of
     #     the exit path (everything is dropped, streams before connections), no pairwise comparison
     for i in range(80 if quick else 1500):
